@@ -173,6 +173,10 @@ def run_check(unit, case, ctx):
 SHRINK_BUDGET_S = 25.0
 
 
+class _ShrinkBudgetExhausted(BaseException):
+    pass
+
+
 def run_hyp_unit(unit, tier, verif_seed, shard, nshards, kf):
     from hypothesis import given, settings, seed, HealthCheck, Phase, Verbosity
     from hypothesis import target as hyp_target
@@ -191,11 +195,10 @@ def run_hyp_unit(unit, tier, verif_seed, shard, nshards, kf):
         state = {"target": None, "last": None, "t0": None, "others": set()}
 
         def body(case):
-            if state["t0"] is not None and time.time() - state["t0"] > SHRINK_BUDGET_S:
-                # shrink budget exhausted: let the shrinker converge at once;
-                # only the best-known example is re-evaluated for real.
-                if state["last"] is None or canon.case_hash(case) != canon.case_hash(state["last"].case):
-                    return
+            if state["t0"] is not None and time.time() - state["t0"] > SHRINK_BUDGET_S and state["last"] is not None:
+                # shrink budget exhausted: stop this run at once and keep the smallest failing example found so far
+                # (a BaseException that Hypothesis does not treat as a test outcome, so it propagates out of the engine)
+                raise _ShrinkBudgetExhausted()
             ctx.targets = {}
             fails = _classify(run_check(unit, case, ctx), kf, ctx)
             fails = [f for f in fails if f.key not in muted]
@@ -230,6 +233,8 @@ def run_hyp_unit(unit, tier, verif_seed, shard, nshards, kf):
         try:
             test()
         except Violation:
+            pass
+        except _ShrinkBudgetExhausted:
             pass
         except (herr.Flaky, herr.FlakyFailure) if hasattr(herr, "FlakyFailure") else herr.Flaky:
             pass
